@@ -511,6 +511,12 @@ func newValueFromVertex(v graph.Vertex) *Value {
 // Arg returns an Arg that can be used with Func.Call to send this value.
 // This only works if the Value's Value field is set.
 func (v *Value) Arg() Arg {
+	// A value of an interface type is sent under that type, not under the
+	// dynamic type of what it holds.
+	if v.Value.IsValid() && v.Value.Kind() == reflect.Interface {
+		return valueArg(v.Name, v.Value, v.Subtype)
+	}
+
 	switch v.Kind() {
 	case ValueNamed:
 		return NamedSubtype(v.Name, v.Value.Interface(), v.Subtype)
